@@ -448,7 +448,7 @@ func (p *Program) Explore(h *HarnessRun, nworkers int, solverBin string) {
 func (p *Program) runOne(h *HarnessRun, wk *Worker, j job) *Machine {
 	m := &Machine{P: p, W: wk, T: wk.T, S: wk.S, H: h, prefix: j.prefix,
 		strConsts: map[string]*ArrayV{}, globals: map[*ssa.Global]*Cell{}, inputCount: map[string]int{},
-		side: map[interface{}]interface{}{}, funcs: map[*ssa.Function]int{}, stubs: map[*ssa.Function]int{}, syncVC: map[interface{}][]int{}, shadows: map[interface{}]*shadow{}}
+		side: map[interface{}]interface{}{}, proved: map[*term.Term]bool{}, funcs: map[*ssa.Function]int{}, stubs: map[*ssa.Function]int{}, syncVC: map[interface{}][]int{}, shadows: map[interface{}]*shadow{}}
 	if len(j.prefix) == 0 {
 		m.model = term.NewEvaluator(term.Model{})
 	}
